@@ -252,3 +252,25 @@ prop(id="C19", vfile="Properties/C19.v",
          "RunMigrations finds every module at its current consensus version"],
      partial="the dynamic half (no halt, versions recorded, data unchanged, restart equivalence on the real store) is decided by running the real "
              "upgrade on generated populated states, not proved; migrations from genuinely older module versions cannot be exercised offline")
+
+
+SIGN_RULE = ("sign profile (by shape; thorough adds 600 random messages): every one of the 14 custom message kinds, optional fields empty and "
+             "non-empty, texts with quotes, backslashes, <>&, control characters, U+2028, DEL, bytes that are not UTF-8, byte fields with "
+             "0x00/0xff, DID documents of 12 shapes (contexts as one string or a list, controller absent/empty/present, referenced and "
+             "embedded relationships, services), several messages per transaction in both orders, memo, multi-coin and empty fees, "
+             "sequence 0 and 2^31-1 — each in SIGN_MODE_DIRECT, DIRECT_AUX and LEGACY_AMINO_JSON. The real "
+             "TxConfig.SignModeHandler().GetSignBytes and the model must return the same bytes (the auth-info and public-key bytes the "
+             "harness used are inputs of the model). On the implementation alone: two transactions whose messages differ (type URL or "
+             "protobuf bytes) while every other parameter is equal must not share their sign bytes; collisions are classified by the pair "
+             "of kinds or, within a kind, by whether the two messages become equal after the two known JSON normalisations")
+prop(id="C14", vfile="Properties/C14.v",
+     runs=lambda tier, seed: [dict(profile="sign", seed=seed, n=_sizes(tier, 1, 2))],
+     rule=SIGN_RULE, assumptions=[
+         "timeout_height, tip, fee payer/granter are zero/absent in the modelled transactions (a non-zero value adds one more injectively "
+         "encoded field); the auth-info and public-key Any bytes are opaque inputs",
+         "Go's encoding/json string escaping (Go >= 1.22 short forms \\b \\f), amino's omitempty and base64 are modelled in Sign/Model.v from "
+         "their source and checked byte for byte on every case; the amino StdSignDoc envelope is compared for equal account/sequence/fee/memo "
+         "parameters on both sides (direct and direct-aux are proved for different parameters too)",
+         "stateless validation premises use the chain model's vb_base with a bech32 decoder that refuses the empty string (as the SDK does)"],
+     partial="legacy amino JSON is not injective (known findings K1, K1b; exact classification proved: four pairs of kinds, invalid UTF-8, "
+             "empty controller); direct and direct-aux are proved without restriction")
